@@ -6,7 +6,7 @@ package syslogparser
 
 //@ property C09 C07 C12 C19
 
-//@ global len(syslogprotocol.FacilityNames) == 24
+//@ global len(syslogprotocol.FacilityNames) == 24 && len(syslogprotocol.SeverityNames) == 8
 
 // representation invariant of the parser (established by NewParser): eight level names, nine field locators inside the
 // records of its allocator, pairwise distinct
@@ -20,6 +20,19 @@ package syslogparser
 //@  && (forall j int :: 0 <= j && j < 6 ==> p.restFieldLocators[j] != p.fieldFacilityLocator && p.restFieldLocators[j] != p.fieldLevelLocator
 //@                                         && p.restFieldLocators[j] != p.fieldLogLocator)
 //@  && (forall j int, k int :: 0 <= j && j < k && k < 6 ==> p.restFieldLocators[j] != p.restFieldLocators[k])
+
+// the constructor establishes the shape part of the invariant (C16: an accepted input configuration yields a parser that
+// cannot index outside its tables): exactly eight level names, six header-field locators, every locator inside the schema
+//@ func NewParser(parentLogger logger.Logger, allocator *base.LogAllocator, schema base.LogSchema, levelMapping []string, inputCounter *base.LogInputCounterSet) (base.LogParser, error)
+//@   property C16 C09 C07
+//@   requires parentLogger != nil && inputCounter != nil && inputCounter.counterMap != nil && inputCounter.countMetricVec != nil && inputCounter.lengthMetricVec != nil
+//@   modifies everything
+//@   ensures[accepted-parser-has-the-table-shapes] result.1 == nil ==> typeis(result.0, *syslogParser) && as(result.0, *syslogParser) != nil
+//@        && len(as(result.0, *syslogParser).levelMapping) == 8 && len(as(result.0, *syslogParser).restFieldLocators) == 6
+//@        && inrec(as(result.0, *syslogParser), as(result.0, *syslogParser).fieldFacilityLocator) && inrec(as(result.0, *syslogParser), as(result.0, *syslogParser).fieldLevelLocator)
+//@        && inrec(as(result.0, *syslogParser), as(result.0, *syslogParser).fieldLogLocator)
+//@        && (forall j int :: 0 <= j && j < 6 ==> inrec(as(result.0, *syslogParser), as(result.0, *syslogParser).restFieldLocators[j]))
+//@   loop 1: invariant -1 <= rangeindex && rangeindex < 6 && len(locRest) == rangeindex + 1 && (len(locRest) == 0 || isfresh(locRest)) && forall j int :: 0 <= j && j < len(locRest) ==> 0 <= locRest[j] && locRest[j] < len(schema.fieldNames)
 
 // counters (uint64, not yet written to the metrics); the 2^62 bound keeps the machine additions exact
 //@ pure func passN(p *syslogParser) int := p.inputCounter.passedRecordsCountTotal.unwrittenValue
